@@ -43,7 +43,8 @@ def _c20():
 
 def _c01():
     import parser as pk
-    return {"builders": [pk.build], "level": "other", "explanation": "lexer/cursor kernel",
+    import charparser as ck
+    return {"builders": [pk.build, ck.build], "level": "other", "explanation": "lexer/cursor kernel",
             "replay_fn": pk.replay_fn, "replay_file_fn": pk.replay_file}
 
 
@@ -76,4 +77,9 @@ def _c19():
             "replay_fn": lk.replay_fn, "replay_file_fn": lk.replay_file}
 
 
-PROPS = {"C19": _c19, "C09": _c09, "C07": _c07, "C06": _c06, "C20": _c20, "C01": _c01, "C05": _c05}
+def _c16():
+    import charparser as ck
+    return {"builders": [ck.build], "level": "other", "explanation": "escape decoding"}
+
+
+PROPS = {"C16": _c16, "C19": _c19, "C09": _c09, "C07": _c07, "C06": _c06, "C20": _c20, "C01": _c01, "C05": _c05}
